@@ -1,11 +1,66 @@
 (* Props_C01.v — property C01: ONLY theorem statements, each closed by [exact] of a lemma from
-   C01_Proofs*, followed by Print Assumptions. *)
-From Verif Require Import Base C01_Model C01_Stmt C01_Spec C01_Proofs.
+   C01_Proofs*, followed by Print Assumptions.
+   [statement inl ti chain f] = the clause tree real gorm assembles for a handle on table [ti], the
+   chain calls [chain] and the finisher [f] (C01_Stmt); [bval numbered e v] = what the Build methods
+   write for it (C01_Model): SQL bytes and bound values; [render] writes "?" or "$n" for each value.
+   [wfb] is the property's domain: every template has as many '?' as arguments (or only @names that
+   are all defined), no '$', no digit at its front or right after a '?'. *)
+From Verif Require Import Base C01_Model C01_Stmt C01_Spec C01_Proofs C01_Proofs2 C01_Proofs7.
 
-(* "?" dialect: a rendered text whose pieces carry no '?' byte of their own has exactly one
-   placeholder per bound value *)
+(* the values reach the driver as bound parameters, in the left-to-right order of the arguments:
+   slices one per element, empty slices none (or one NULL right after '('), nil one NULL, []byte one
+   value, expressions and sub-queries their own arguments in place *)
+Theorem c01_vars_in_order : forall numbered e v,
+  tinfo_ok e = true -> wfb v = true -> vars_of (bval numbered e v) = bound_values v.
+Proof. exact vars_in_order. Qed.
+Print Assumptions c01_vars_in_order.
+
+(* exactly one placeholder per bound value, numbered 1..n from left to right, under both
+   placeholder styles (including sub-queries, whose numbering continues, and already built
+   sub-queries, whose "$k" are renumbered) *)
+Theorem c01_placeholders : forall numbered e v,
+  tinfo_ok e = true -> wfb v = true ->
+  placeholders numbered (render numbered (bval numbered e v)) = nseq (length (vars_of (bval numbered e v))).
+Proof. exact placeholders_in_order. Qed.
+Print Assumptions c01_placeholders.
+
+(* the same for every statement built from a chain and a finisher *)
+Theorem c01_statement : forall numbered inl ti chain f,
+  let tv := statement inl ti chain f in
+  tinfo_ok (fst tv) = true -> wfb (snd tv) = true ->
+  vars_of (bval numbered (fst tv) (snd tv)) = bound_values (snd tv)
+  /\ placeholders numbered (render numbered (bval numbered (fst tv) (snd tv)))
+     = nseq (length (bound_values (snd tv))).
+Proof.
+  intros numbered inl ti chain f tv He Hw. split; [apply vars_in_order; assumption|].
+  rewrite <- (vars_in_order numbered (fst tv) (snd tv) He Hw). apply placeholders_in_order; assumption.
+Qed.
+Print Assumptions c01_statement.
+
+(* rendered texts over pieces (used by the two theorems above) *)
 Theorem c01_placeholders_qmark_pieces : forall ps,
   no_char "?" ps = true -> no_hidden ps = true ->
   placeholders false (render false ps) = nseq (length (vars_of ps)).
 Proof. exact placeholders_qmark. Qed.
 Print Assumptions c01_placeholders_qmark_pieces.
+
+Theorem c01_placeholders_numbered_pieces : forall ps,
+  no_char "$" ps = true -> no_hidden ps = true -> okd ps = true ->
+  placeholders true (render true ps) = nseq (length (vars_of ps)).
+Proof. exact placeholders_numbered. Qed.
+Print Assumptions c01_placeholders_numbered_pieces.
+
+(* non-vacuity: a chain with a named template, a slice after '(', a sub-query, an already built
+   sub-query with eleven values, nil, a driver.Valuer and a finisher adding LIMIT is in the domain *)
+Example c01_domain_instance :
+  let ti := mk_tinfo "items" (Some "id"%string) [("ID", "id"); ("Name", "name")]%string in
+  let chain :=
+    [KCond KWh (VQStr "name = @n OR code <> @n") [VNamed "n" (VS (SStr "x'?"))];
+     KCond KWh (VQStr "age IN (?) AND data = ?") [VList LKnown [VS (SInt 1); VS (SInt 2)]; VS (SBytes "ab")];
+     KCond KOr (VQStr "id IN (?)") [VSub ti [KSelectCols ["id"%string]; KCond KWh (VQStr "code") [VDrv SNull]]];
+     KCond KNot (VQStr "id IN (?)")
+       [VRawSub "SELECT id FROM items WHERE name IN (?,?,?,?,?,?,?,?,?,?) OR code = ?"
+          (map (fun z => VS (SInt z)) [1;2;3;4;5;6;7;8;9;10;11]%Z)]] in
+  let tv := statement false ti chain (FFirst []) in
+  tinfo_ok (fst tv) = true /\ wfb (snd tv) = true /\ length (bound_values (snd tv)) = 17%nat.
+Proof. vm_compute. repeat split. Qed.
